@@ -1350,7 +1350,10 @@ class Mailbox(Template[_MailboxType]):
             self._flag = SyncFlag(delay=delay, tx_delay=tx_delay, rx_delay=rx_delay)
 
     def send(self, data):
-        self._data <<= data
+        # like SyncFlag.set, a send while the flag is still set has no effect:
+        # the payload of the pending event must not be overwritten
+        if self._flag.is_clear():
+            self._data <<= data
         self._flag.set()
 
     async def receive(self):
